@@ -17,7 +17,7 @@ from collections import Counter
 
 from simkit import core, env
 from checks.c13_model import (Model, Violation, Discard, check_primary, rebuild, resync, stereo_of,
-                              observe, OBSERVERS, OBS_INDEX)
+                              observe, OBSERVERS, OBS_INDEX, GRAPH_ONLY)
 
 PROP = 'C13'
 MAXH = 4
@@ -38,6 +38,8 @@ SEEDS = [
     '[O-][N+](=O)C', 'CN=[N+]=[N-]', 'B(O)O', 'C[Si](C)(C)C', '[CH3]', 'C[CH2]', 'C[O]', '[H]C([H])([H])O', '[H]O[H]',
     '[2H]C(Cl)(F)Br', '[13CH4]', 'Cl[Fe]Cl', 'N[Cu]N', 'CCN.CCO', 'C.C.C', 'OC(=O)C(O)=O', 'C1CC1.C1CC1', 'CC#CC',
     'C(=O)=O', 'N#N', 'S=C=S', 'C1CCC2(CC1)CC2', 'C1CC12CC2', 'CC(C)(C)C(C)(C)C', 'NC(N)=O', 'C[P+](C)(C)C',
+    'C[C@H](O)[C@H](O)[C@@H](C)O', 'C/C=C/[C@H](O)/C=C\\C', 'C[C@H](O)[C@@H](O)[C@H](C)O', 'O[C@H]1C[C@@H](O)C1',
+    'C[C@H]1C[C@H](C)C[C@H](C)C1', 'C/C=C/C(/C=C/C)=C/C', 'F[C@H](Cl)[C@@H](Br)[C@H](F)Cl', 'C[C@@H](F)C(Cl)[C@@H](F)C',
     'ClC(Cl)Cl', 'BrCCBr', 'FC(F)(F)F', 'CSSC', 'C[S-]', 'C[NH-]', '[NH3+]CC([O-])=O',
 ]
 
@@ -172,12 +174,8 @@ class Sim:
             raise
         # domain: chython's label book-keeping maps an atom to one stereogenic double-bond unit; hypervalent
         # junction atoms that belong to two units (C=C(=C)...) are outside what the labels can represent
-        seen_units = {}
-        for path in r.stereogenic_cumulenes:
-            if len(path) % 2 == 0:
-                for x in (path[0], path[-1], path[len(path) // 2], path[len(path) // 2 - 1]):
-                    if seen_units.setdefault(x, path) != path:
-                        raise Discard('overlapping stereogenic double-bond units')
+        if _overlapping_units(r):
+            raise Discard('overlapping stereogenic double-bond units')
         rast, rbst = stereo_of(r)
         if ast != rast or bst != rbst:
             da = {n: (ast.get(n), rast.get(n)) for n in set(ast) | set(rast) if ast.get(n) != rast.get(n)}
@@ -235,7 +233,22 @@ class Sim:
         pre_sig = None
         if hi is not None and kind in MUTATORS:
             pre_sig = self._cache_sig(self.handles[hi].mol)
-        res = getattr(self, 'op_' + kind)(op)
+        try:
+            res = getattr(self, 'op_' + kind)(op)
+        except Violation as v:
+            if v.cls.startswith('unexpected-exception') and hi is not None and hi < len(self.handles):
+                # an exception on a state outside the label book-keeping domain (see check_handle) is not a result
+                try:
+                    tmp = Model()
+                    resync(tmp, self.handles[hi].mol)
+                    r = rebuild(self.handles[hi].mol, tmp, {}, {})
+                    if _overlapping_units(r):
+                        raise Discard('overlapping stereogenic double-bond units')
+                except Discard:
+                    raise
+                except Exception:
+                    pass
+            raise
         if res is None:
             self.sig.append((kind, 'skip'))
             return
@@ -775,6 +788,22 @@ class Sim:
             mol.meta[inner.get('k', 'k')] = inner.get('v', 'v')
             txm.meta[inner.get('k', 'k')] = inner.get('v', 'v')
             return set()
+        if k == 'obs':
+            # reading graph-derived values inside the open block (labels are not recalculated there by design)
+            try:
+                r = rebuild(mol, txm, {}, {})
+            except Exception as e:
+                from chython.exceptions import ImplementationError
+                if isinstance(e, ImplementationError):
+                    raise Discard('sssr')
+                raise
+            for i in inner.get('names', [0]):
+                name = GRAPH_ONLY[i % len(GRAPH_ONLY)]
+                v1, v2 = observe(mol, name), observe(r, name)
+                if v1 != v2:
+                    raise Violation(f'derived-mismatch:{name}', f'inside transaction: mol={_short(v1)} rebuilt={_short(v2)}')
+            self.probes['tx_obs_inside'] += 1
+            return set()
         if k == 'invalid':
             f = self._invalid_call(mol, txm, inner.get('kind', 0))
             if f is None:
@@ -868,6 +897,16 @@ class Sim:
         return hi, touched
 
 
+def _overlapping_units(r):
+    seen_units = {}
+    for path in r.stereogenic_cumulenes:
+        if len(path) % 2 == 0:
+            for x in (path[0], path[-1], path[len(path) // 2], path[len(path) // 2 - 1]):
+                if seen_units.setdefault(x, path) != path:
+                    return True
+    return False
+
+
 def _components(model):
     seen, out = set(), []
     for n in sorted(model.atoms):
@@ -913,6 +952,9 @@ def _rank(rng):
 
 
 def gen_inner(sim, rng, model):
+    r = rng.random()
+    if r < 0.12:
+        return {'op': 'obs', 'names': [rng.randrange(len(GRAPH_ONLY)) for _ in range(rng.choice([1, 2, 4]))]}
     r = rng.random()
     if r < 0.25:
         return {'op': 'set_charge', 'a': _rank(rng), 'v': rng.choice([-2, -1, -1, 0, 1, 1, 2])}
